@@ -58,6 +58,13 @@ def mkFloatCfg (kind : String) (kv : KV) (factor : Rat) : Option (Cfg F) :=
     pure (.emedian (← (kv.get "pre").bind FloatLike.parse) (← (kv.get "mid").bind FloatLike.parse)
       (← (kv.get "post").bind FloatLike.parse))
   | "alphabeta" => do pure (.alphaBeta (← (kv.get "alpha").bind FloatLike.parse) (← (kv.get "beta").bind FloatLike.parse))
+  | "mean" => (kv.nat "N").map .mean
+  | "meanvar" => (kv.nat "N").map .meanVar
+  | "delay" => (kv.nat "N").map .delay
+  | "emeanvar" => do pure (.emeanVar (← (kv.get "w").bind FloatLike.parse))
+  | "kalman" => do
+    let g (k : String) : Option F := (kv.get k).bind FloatLike.parse
+    pure (.kalman { r := ← g "r", q := ← g "q", a := ← g "a", b := ← g "b", c := ← g "c" })
   | _ => none
 
 partial def fcfgString : Cfg F → String
@@ -204,7 +211,9 @@ def firstUnchanged (name : String) (h : List (List F)) (y : List F) : List Claus
 /-- the generic recursive filters run at a float type: the exact-rational runs carry their properties; here only what
 is literally about values is asserted, the rounding of later outputs is not compared -/
 def looseKind : St F → Bool
-  | .ema _ _ => true | .emedian _ _ _ _ => true | .alphaBeta _ _ _ => true | _ => false
+  | .ema _ _ => true | .emedian _ _ _ _ => true | .alphaBeta _ _ _ => true
+  | .mean _ _ => true | .meanVar _ _ _ => true | .delay _ _ => true | .emeanVar _ _ => true | .kalman _ _ => true
+  | _ => false
 
 def specFloat (getPartnerInputs : Option (List F)) : St F → List (List F) → List F → Bool → List Clause
   | .ema _ _, h, y, _ => firstUnchanged "C13.first-sample-unchanged" h y
@@ -219,7 +228,8 @@ def specFloat (getPartnerInputs : Option (List F)) : St F → List (List F) → 
 def fkindName : St F → String
   | .hampel _ _ _ => "hampel" | .convolve _ _ => "convolve" | .analyze _ _ _ _ => "analyze"
   | .synthesize _ _ _ _ => "synthesize" | .ema _ _ => "ema" | .emedian _ _ _ _ => "emedian"
-  | .alphaBeta _ _ _ => "alphabeta" | _ => "float"
+  | .alphaBeta _ _ _ => "alphabeta" | .mean _ _ => "mean" | .meanVar _ _ _ => "meanvar" | .delay _ _ => "delay"
+  | .emeanVar _ _ => "emeanvar" | .kalman _ _ => "kalman" | _ => "float"
 
 /-- operations on one table of float instances -/
 def stepFloatTable (tbl : List (Nat × FInst F)) (factor : Rat) (typeTag : String)
@@ -294,7 +304,10 @@ def stepFloatTable (tbl : List (Nat × FInst F)) (factor : Rat) (typeTag : Strin
   | "same" :: a :: b :: name :: _ => do
     let ia ← get (← a.toNat?)
     let ib ← get (← b.toNat?)
-    match ia.last, ib.last with
+    -- "same inputs, same outputs" comparisons are meaningful only between instances with the same input history
+    let sameInputs := ["C20.copy-continues", "C20.copy-eq-replay", "C12.reset-eq-fresh"].contains name
+    let histEq := ia.hist.map (fun l => l.map toBitsNat) == ib.hist.map (fun l => l.map toBitsNat)
+    match (if !sameInputs || histEq then ia.last else none), ib.last with
     | some la, some lb =>
       let ra := frenderOut la
       let rb := frenderOut lb
